@@ -143,7 +143,8 @@ pub fn drive(prop: &str, args: &[String]) -> i32 {
     let mut extra_cases: Vec<Value> = vec![];
     let mut extra_replies: Vec<Reply> = vec![];
     for ((p, c), r) in generated.into_iter().zip(gen_base.into_iter()).zip(gen_replies.into_iter()) {
-        let ok = matches!(&r, Reply::Ok(v) if v["parse"]["status"] == "ok" && v["build"]["status"] == "ok" && v["codegen"]["status"] == "ok");
+        // (the bare build's code generator refuses projects that need a plural / formatter feature: they still export tables)
+        let ok = matches!(&r, Reply::Ok(v) if v["parse"]["status"] == "ok" && v["build"]["status"] == "ok" && (v["codegen"]["status"] == "ok" || (corpus::VARIANT == "bare" && v["codegen"]["status"] == "err")));
         // a generated project that is rejected with an error is simply not used; a panic on it is judged like any case
         let panicked = !matches!(&r, Reply::Ok(v) if v["parse"]["status"] != "panic" && v["build"]["status"] != "panic" && v["codegen"]["status"] != "panic");
         if ok {
@@ -194,7 +195,13 @@ pub fn drive(prop: &str, args: &[String]) -> i32 {
     let mut samples: Vec<Value> = vec![];
     let mut skipped_projects: BTreeSet<String> = BTreeSet::new();
 
+    let mut export_digests: BTreeMap<String, String> = BTreeMap::new();
     for (i, (case, reply)) in cases.iter().zip(replies.iter()).enumerate() {
+        if let Reply::Ok(v) = reply {
+            if let (Some(d), Some(p)) = (v["export_digest"].as_str(), case["project"].as_str()) {
+                export_digests.insert(p.to_string(), d.to_string());
+            }
+        }
         let (vs, val) = judge(prop, &projects, case, reply);
         let ok = outcome_key(reply);
         outcomes.insert(ok.clone());
@@ -266,6 +273,7 @@ pub fn drive(prop: &str, args: &[String]) -> i32 {
             "violation_classes": class_counts, "known_findings": known_reported, "wall_s": wall,
             "projects": projects.iter().map(|p| p.id.clone()).collect::<Vec<_>>(),
             "skipped_projects": skipped_projects,
+            "export_digests": export_digests,
             "exhaustive_parts": if opts.tier == "thorough" { json!(["truncate: every offset of every file", "structural: every file x every operator"]) } else { json!(["structural: every file x every operator"]) },
         });
         if let Some(d) = std::path::Path::new(&opts.out).parent() {
